@@ -58,6 +58,9 @@ type expander struct {
 	// addr: the struct values text/template can take the address of (data handed over by pointer, slice
 	// elements, fields of addressable structs): pointer-receiver methods are found on these only
 	addr map[*interp.Struct]bool
+	// dot of the command being evaluated: the arguments of `$v.Method .Arg` see it, not $v
+	cmdDot    interp.Value
+	hasCmdDot bool
 }
 
 type tvar struct {
@@ -368,6 +371,9 @@ func (ex *expander) lookupVar(n parse.Node, name string) (interp.Value, error) {
 }
 
 func (ex *expander) command(dot interp.Value, c *parse.CommandNode, final interp.Value, hasFinal bool) (interp.Value, error) {
+	prevDot, prevHas := ex.cmdDot, ex.hasCmdDot
+	ex.cmdDot, ex.hasCmdDot = dot, true
+	defer func() { ex.cmdDot, ex.hasCmdDot = prevDot, prevHas }()
 	first := c.Args[0]
 	switch n := first.(type) {
 	case *parse.FieldNode:
@@ -454,8 +460,12 @@ func (ex *expander) fieldChain(n parse.Node, recv interp.Value, idents []string,
 		var callArgs []interp.Value
 		hasArgs := false
 		if last {
+			argDot := recv
+			if ex.hasCmdDot && len(args) > 1 {
+				argDot = ex.cmdDot
+			}
 			for _, a := range args[1:] {
-				v, err := ex.arg(recv, a)
+				v, err := ex.arg(argDot, a)
 				if err != nil {
 					return nil, err
 				}
